@@ -202,6 +202,8 @@ def preflightModule (d : Diagram) (H : Nat → Option Handler) (mi : MInputs) (m
 def preflight (d : Diagram) (H : Nat → Option Handler) (mi : MInputs) : Option Err :=
   if d.wires.any (fun w => (d.findMod w.srcM).isNone) then some .keyError       -- `outgoing[wire.src_module]`
   else if d.wires.any (fun w => (d.incoming w.dstM w.dstP).length > 1) then some .multipleSources
+  -- a wired port that was also given an external value: two sources (`module_inputs.get(module_name, ())`)
+  else if d.wires.any (fun w => hasKey w.dstP (mi w.dstM)) then some .multipleSources
   else d.modules.findSome? (preflightModule d H mi)
 
 /-- record of one module in the report (`ModuleExecution`) -/
